@@ -324,6 +324,28 @@ class Life:
         confirmed = {u: 0 for u in self.users}
         black = set()
         paid_nft = set()
+        if r.chance(1, 3) and self.users:
+            # exactly at the first confirmation round: a participant pays, then the owner tries to move
+            # the confirmation start and to re-price (both must be rejected; if a defect lets them
+            # through, the rest of the lifecycle continues with the new terms and the ledger monitors
+            # see the consequences)
+            t.round = self.conf
+            u = r.pick(self.users)
+            left = self.alloc.get(u, 0)
+            if left > 0:
+                res = t.call(u, "confirm", [1], **self.pay(self.price))
+                if res["st"] == "ok":
+                    confirmed[u] += 1
+            res = t.call(OWNER, "setConfStart", [self.conf + 2])
+            moved = res["st"] == "ok"
+            newprice = self.price + r.pick([1, 5])
+            res = t.call(OWNER, "setTicketPrice", [self.paytok, newprice])
+            if res["st"] == "ok":
+                self.price = newprice
+            t.dump()
+            if moved:
+                self.conf += 2
+                t.round = self.conf
         steps = r.range(2 * len(self.users), 4 * len(self.users) + 3)
         if self.o.get("few_confirm"):
             steps = r.range(0, 2)
@@ -470,6 +492,19 @@ class Life:
             for _ in range(r.range(2, 8)):
                 t.round += r.pick([1, 2, 5, 10, 30])
                 a = r.pick(self.users)
+                if r.chance(1, 4):
+                    # the owner tries to replace the schedule in the middle of the vesting period
+                    if self.v == "guarV1":
+                        res = t.call(OWNER, "setSchedule1", [t.round + 1, 10000, 0, 0, 0])
+                    else:
+                        res = t.call(OWNER, "setSchedule2", [1, t.round + 1, 10000])
+                    t.dump()
+                    if res["st"] == "ok":
+                        # anomalous: follow it up so that its consequences become observable
+                        t.round += 2
+                        for b in self.users:
+                            t.call(b, "claim")
+                            t.dump()
                 if r.chance(1, 4):
                     # a pause in the middle of the vesting period: claims (first and repeated) while paused
                     t.call(OWNER, "pause")
